@@ -402,6 +402,31 @@ func injectorCallErrors(fset *token.FileSet, pos token.Pos, name string, injectS
 				fmt.Errorf("inject %s: value %s can't be used: %v", name, ts, err)))
 		}
 	}
+	if c.pkg != nil && c.pkg.Path() != pkgPath {
+		// The generated code refers to these names from another package.
+		ts := types.TypeString(c.out, nil)
+		switch c.kind {
+		case funcProviderCall, structProvider:
+			if !ast.IsExported(c.name) {
+				errs = append(errs, notePosition(
+					fset.Position(pos),
+					fmt.Errorf("inject %s: provider for %s can't be used: %s is not exported by package %s", name, ts, c.name, c.pkg.Name())))
+			}
+			for _, f := range c.fieldNames {
+				if !ast.IsExported(f) {
+					errs = append(errs, notePosition(
+						fset.Position(pos),
+						fmt.Errorf("inject %s: struct provider for %s can't be used: field %s is not exported by package %s", name, ts, f, c.pkg.Name())))
+				}
+			}
+		case selectorExpr:
+			if !ast.IsExported(c.name) {
+				errs = append(errs, notePosition(
+					fset.Position(pos),
+					fmt.Errorf("inject %s: field provider for %s can't be used: field %s is not exported by package %s", name, ts, c.name, c.pkg.Name())))
+			}
+		}
+	}
 	return errs
 }
 
